@@ -9,8 +9,8 @@ from ..node import NodeError
 
 PROP = "C19"
 
-STACK_MAX = [1024] * 5 + [1, 2, 3, 4, 5, 6, 8, 16]
-REC_MAX = [1024] * 5 + [1, 2, 3, 4, 5, 6, 16]
+STACK_MAX = [1024] * 24 + [1, 2, 3, 4, 5, 6, 8, 16]
+REC_MAX = [1024] * 21 + [1, 2, 3, 4, 5, 6, 16]
 OUT_INIT = [1, 2, 3, 5, 8, 1024]
 OUT_RESIZE = [1.01, 1.25, 1.5, 2.0, 3.7]
 EDGE32 = [0, 1, -1, 2, -2, 3, 5, 7, 8, 10, 31, 32, 33, 63, 64, 100, 127, 128, 255, 256, 32767, 32768, 65535,
@@ -137,9 +137,8 @@ class Gen:
         if x < 0.965 and en["halt"]:
             return [["halt"]], d, 1
         if x < 0.98 and en["strings"]:
-            t = r.choice(["abc", "", "hello world", "a\\\"b", "x y  z"])
-            if t == "":
-                t = "q"
+            # no quotes or backslashes: the tokenizer's escape handling is outside the documented vocabulary
+            t = r.choice(["abc", "q", "hello world", "x y  z", "1 2 +", ": ;"])
             if r.random() < 0.5:
                 return [["s", t]], d + 1, 1
             return [["p", t]], d, 1
@@ -552,7 +551,19 @@ def execute(node, case, rec, opts):
         raise Violation("compile", "valid_program_refused", {"source": src, "error": [e.cls, e.msg[:300]]})
     budget_actions = 12 * ninstr + 400
     try:
-        err0, resumes0 = drv.canonical(h0, pauses + 3 if not unspecified else budget_actions)
+        if unspecified:
+            # the model stopped at an undefined operation, so nothing bounds the real execution: drive it by a
+            # bounded number of single steps and give no verdict when that is not enough
+            cap = opts.get("forth_unspecified_cap", 60000)
+            node.fm_do(h0, node.FM_BEGIN)
+            err0, done0 = node.fm_do(h0, node.FM_STEP, cap)
+            rec.ticks += done0
+            resumes0 = 0
+            if err0 == 0 and not (node.fm_flags(h0) & 2):
+                raise Discard("unspecified behaviour and no termination within the step cap")
+            budget_actions = 4 * cap
+        else:
+            err0, resumes0 = drv.canonical(h0, pauses + 3)
     except NodeError as e:
         raise Violation("robustness", "exception_from_run", {"error": [e.cls, e.msg[:300]]})
     st0 = node.fm_state(h0)
@@ -721,7 +732,14 @@ def execute_illformed(node, case, rec, src):
                         {"source": src, "decompiled": dec.decode("latin-1"), "error": [e.cls, e.msg[:300]]})
     if node.fm_decompiled(hd) != dec:
         raise Violation("decompile", "not_a_fixpoint", {"source": src, "decompiled": dec.decode("latin-1")})
-    node.fm_do(h, node.FM_BEGIN)
+    try:
+        node.fm_do(h, node.FM_BEGIN)
+    except NodeError as e:
+        # e.g. the mutation turned a name into an input declaration that nobody supplies
+        if e.cls == "nonstd":
+            raise Violation("robustness", "nonstd_exception", {"source": src})
+        rec.ev("begin_refused", e.cls)
+        return
     err, done = node.fm_do(h, node.FM_STEP, 3000)
     rec.ticks += done
     rec.ev("stepped", err, done, view(err, node.fm_state(h)))
@@ -1000,3 +1018,53 @@ def describe(case):
     return {"source": src, "width": case["width"], "limits": [case["stack_max"], case["rec_max"]],
             "growth": [case["out_init"], case["out_resize"]], "inputs": case["inputs"],
             "schedules": case["schedules"], "calls": case["calls"]}
+
+
+# ================================================================================================ check metadata
+def tier_opts(tier):
+    if tier == "thorough":
+        return {"runs": 400000, "determinism_sample": 1024, "perturb_sample": 2000, "asan_runs": 60000,
+                "forth_max_words": 120, "forth_schedules": 4, "run_timeout": 30.0, "shrink_per_class": 3,
+                "mutants": True}
+    return {"runs": 40000, "determinism_sample": 64, "perturb_sample": 300, "forth_max_words": 40,
+            "forth_schedules": 3, "run_timeout": 6.0, "shrink_per_class": 2}
+
+
+ASSUMPTIONS = [
+    "the reference model (simfw/models/forth_model.py) is written from the property text and standard Forth; "
+    "points marked CALIBRATED mirror the unchanged tree (do-loop test-before-body, rshift arithmetic, state after "
+    "halt, divisor popped before division_by_zero)",
+    "programs whose model execution reaches behaviour that is not defined (shift count outside the cell width, "
+    "float to integer out of range, call() at the recursion limit) are checked for self-consistency and "
+    "robustness only",
+    "only the C++ ForthMachine32/64 API is exercised; the Python wrapper (src/awkward/forth.py, pybind11) cannot "
+    "be built in this sandbox",
+    "g++ 12 -O1, glibc; signed overflow is assumed to wrap as it does on this target",
+]
+COMPONENTS = {"real": ["src/libawkward/forth/ForthMachine.cpp", "ForthInputBuffer.cpp", "ForthOutputBuffer.cpp",
+                       "NumpyArray (output views)"],
+              "stub": ["rapidjson (framework stub; not on this property's path)"],
+              "absent": ["pybind11 layer", "Python layer (ak.forth)"]}
+RULE = ("one run = seeded grammar-based program (AST, <= forth_max_words words) + input bytes + machine "
+        "configuration + several step/resume schedules + growth settings + call sequence; the reference model "
+        "decides termination first (20000-instruction budget, else discarded). distinct = hash of (opcode-class "
+        "sequence of the program, schedule shape with step-burst classes, machine width, configuration class); "
+        "non-trivial = at least 5 program words or at least one fault kind fired")
+REQUIRED_PROBES = {"quick": ["program_paused", "schedules_compared", "calls_compared", "compile_error_reported"],
+                   "thorough": ["program_paused", "schedules_compared", "calls_compared", "compile_error_reported",
+                                "mutated_source_compiled"]}
+
+
+def match_predicate(where, case, violation):
+    """predicates over the minimised case for known_findings.json (closed vocabulary)."""
+    if not where:
+        return True
+    src = fm.render(case["program"])
+    kind = where.get("kind")
+    if kind == "program_has_read":
+        import re
+        return re.search(where["regex"], src) is not None
+    if kind == "source_regex":
+        import re
+        return re.search(where["regex"], src) is not None
+    return False
